@@ -64,7 +64,7 @@ def scenarios(tier):
     A = inject.assumptions(("decoders",))
     return [Scenario(f"{label}: 12 free octets", path_for(label, meter, mk),
                      bounds={"position": label, "free": "year 1..9999, month, day (valid calendar date), hour, minute, second, hundredths 0..99|0xFF, deviation -720..720|0x8000, day-of-week any, clock status any (256 values)"},
-                     domains=("decoders",), frontier=5, assumptions=A, replay_cap=150, must_reach=("assert",)) for label, meter, mk in POSITIONS]
+                     domains=("decoders",), engine_opts={"slicing": True}, frontier=5, assumptions=A, replay_cap=150, must_reach=("assert",)) for label, meter, mk in POSITIONS]
 
 
 def main():
